@@ -50,6 +50,7 @@ fn main() {
                 "reader" => gen_codec::reader_cases(&mut r, count),
                 "valid" => gen_codec::valid_table(),
                 "encode" => gen_codec::encode_cases(&mut r, count),
+                s if s.starts_with("sweep_") => gen_sess::sess_sweep(&mut r, &s[6..], count),
                 s if s.starts_with("sess_") => gen_sess::sess_profile(&mut r, &s[5..], count),
                 _ => panic!("unknown suite"),
             };
